@@ -13,6 +13,8 @@ def decide(ctx, spec_module, cases, trace_file, failed, validated, level_note, r
            nontrivial=None, exhaustive=False, extra_cov=None, harness_bin=None, samples_from=None):
     """cases: list of case dicts (with id). failed: {id: [reasons]} from V."""
     prop = ctx.prop
+    failed = {i: [r for r in why if not r.startswith("INFO:")] for i, why in failed.items()}
+    failed = {i: w for i, w in failed.items() if w}
     infra = [(i, r) for i, why in failed.items() for r in why if r.startswith("INFRA:")]
     if infra:
         raise Infra("specification reported infrastructure errors, e.g. case %s: %s" % infra[0])
